@@ -2,8 +2,7 @@
    ever appended when thread t does not exist or has finished (its step is None), so a relation may
    use that fact (e.g. "every entry of thread u after position p is at one of the sites of the call
    u is inside", which an unconditional no-op entry of u would break).  Same conclusion as
-   exec_full_trace.  Not yet used by a pinned theorem: it is the tool the remaining C05 clause (S3 for
-   is_empty = false) needs, see docs/C05.md. *)
+   exec_full_trace.  Used by C05_spec_is_empty_false_needs_publication_on_model (coq/C05/ProofsTrace11.v). *)
 From Coq Require Import List NArith Arith Lia.
 Import ListNotations.
 Require Import MV.Common.Interleave.
